@@ -207,43 +207,22 @@ func checkC08(w *World, r *Report) {
 	})
 
 	r.Rule("R08.6", "the column of the opening quote is counted in characters: openQuotePos accumulates per rune of the text before the quote (tab ↦ tab width, anything else ↦ 1), not from byte lengths", 1)
-	r.guard("R08.6", func() {
-		fd, fp := w.FuncDecl(w.Func("parse", "openQuotePos"))
-		var res types.Object
-		if fd.Type.Results != nil && len(fd.Type.Results.List) == 1 && len(fd.Type.Results.List[0].Names) == 1 {
-			res = fp.TypesInfo.Defs[fd.Type.Results.List[0].Names[0]]
-		}
-		perRune, byLen := false, false
-		ast.Inspect(fd.Body, func(n ast.Node) bool {
-			switch x := n.(type) {
-			case *ast.RangeStmt:
-				if t := fp.TypesInfo.TypeOf(x.X); t != nil && types.Identical(t.Underlying(), types.Typ[types.String]) {
-					// accumulates into the result inside the loop
-					ast.Inspect(x.Body, func(y ast.Node) bool {
-						if as, ok := y.(*ast.AssignStmt); ok && as.Tok == token.ADD_ASSIGN && (res == nil || objOfIdent(fp, as.Lhs[0]) == res) {
-							perRune = true
-						}
-						return true
-					})
-				}
-			case *ast.CallExpr:
-				if id, ok := x.Fun.(*ast.Ident); ok && id.Name == "len" {
-					byLen = true
-				}
-				if c := calleeOf(fp, x); c != nil && (c.FullName() == "strings.Count") {
-					byLen = true
-				}
-			}
-			return true
-		})
-		r.Check(perRune && !byLen, "R08.6", "openQuotePos counts runes", fd.Pos(), "range over the lead-up text, += per rune", "the quote column is derived from byte lengths: a non-ASCII character before the opening quote shifts the indentation that is stripped from continuation lines")
-	})
+	r.guard("R08.6", func() { c08QuoteColumn(w, r, "R08.6") })
 
 	r.Rule("R08.7", "escape substitution state: the 'previous backslash pair' flag can be set only by an empty piece and is false after every non-empty piece", 1)
 	r.guard("R08.7", func() { c08EscapeFlag(w, r, "R08.7") })
 
 	r.Rule("R08.10", "a comment ends at the first terminator after its opener: where the opener's tail can be read as the head of the terminator (\"/*\" then \"/\"), the terminator search starts after the whole opener", 2)
 	r.guard("R08.10", func() { c08CommentSearchStart(w, r, "R08.10") })
+
+	r.Rule("R08.11", "unquoted text is verbatim up to a real separator: the lexer's blank class is exactly {SP, TAB} and its line-break class exactly {CR, LF} (RFC 6020 §12 sep = WSP / line-break); no other character — NBSP, form feed, U+2009 … — ends or is dropped from an unquoted argument", 2)
+	r.guard("R08.11", func() {
+		pe := NewPredEval(w, intDom{})
+		sp := pe.TrueSet(w.Func("parse", "isSpace")).(ISet)
+		r.Check(sp.equal(isetOf(' ', '\t')), "R08.11", "isSpace", token.NoPos, sp.String(), "the blank class is "+sp.String()+", RFC 6020 has {SP, TAB}: other characters inside an unquoted argument split it or are silently dropped")
+		el := pe.TrueSet(w.Func("parse", "isEndOfLine")).(ISet)
+		r.Check(el.equal(isetOf('\r', '\n')), "R08.11", "isEndOfLine", token.NoPos, el.String(), "the line-break class is "+el.String()+", RFC 6020 has {CR, LF}")
+	})
 
 	r.Rule("R08.8", "every line of a multi-line double-quoted string contributes to the result: in trimWhitespace's per-line loop the accumulation (result += line, or Builder.WriteString) dominates every way back to the loop head — no line (blank ones included) is skipped together with its line break", 1)
 	r.Rule("R08.9", "lines are decoded independently: apart from the result and the loop counter, no value computed from one line is carried into the next iteration of trimWhitespace's per-line loop (every other loop-carried variable re-enters the loop as a constant)", 1)
@@ -502,6 +481,9 @@ func checkC10(w *World, r *Report) {
 	r.Rule("R10.7", "equivalent quotings decode alike: the escape-substitution state flag is false after every non-empty piece (same obligation as R08.7, which this property relies on for 'another quoting form of the same value')", 1)
 	r.guard("R10.7", func() { c08EscapeFlag(w, r, "R10.7") })
 
+	r.Rule("R10.8", "equivalent quotings and comments decode alike: the column of the opening quote is counted in characters, so a non-ASCII character earlier on the line (in a comment or an earlier piece) does not change how continuation lines are de-indented", 1)
+	r.guard("R10.8", func() { c08QuoteColumn(w, r, "R10.8") })
+
 	r.Rule("R10.5", "line/column bookkeeping: the 'no earlier line break' test on the LastIndex result treats index 0 as found", 2)
 	r.guard("R10.5", func() {
 		for _, m := range []string{"ErrorContextPosition", "errorf"} {
@@ -639,4 +621,37 @@ func c08EscapeFlag(w *World, r *Report, rule string) {
 			return false
 		})
 		r.Check(ok, rule, "escapeSequenceSubstitution flag discipline", fd.Pos(), "flag false after every non-empty piece", why)
+}
+
+// c08QuoteColumn: openQuotePos counts characters, not bytes (shared by C08 and C10).
+func c08QuoteColumn(w *World, r *Report, rule string) {
+		fd, fp := w.FuncDecl(w.Func("parse", "openQuotePos"))
+		var res types.Object
+		if fd.Type.Results != nil && len(fd.Type.Results.List) == 1 && len(fd.Type.Results.List[0].Names) == 1 {
+			res = fp.TypesInfo.Defs[fd.Type.Results.List[0].Names[0]]
+		}
+		perRune, byLen := false, false
+		ast.Inspect(fd.Body, func(n ast.Node) bool {
+			switch x := n.(type) {
+			case *ast.RangeStmt:
+				if t := fp.TypesInfo.TypeOf(x.X); t != nil && types.Identical(t.Underlying(), types.Typ[types.String]) {
+					// accumulates into the result inside the loop
+					ast.Inspect(x.Body, func(y ast.Node) bool {
+						if as, ok := y.(*ast.AssignStmt); ok && as.Tok == token.ADD_ASSIGN && (res == nil || objOfIdent(fp, as.Lhs[0]) == res) {
+							perRune = true
+						}
+						return true
+					})
+				}
+			case *ast.CallExpr:
+				if id, ok := x.Fun.(*ast.Ident); ok && id.Name == "len" {
+					byLen = true
+				}
+				if c := calleeOf(fp, x); c != nil && (c.FullName() == "strings.Count") {
+					byLen = true
+				}
+			}
+			return true
+		})
+		r.Check(perRune && !byLen, rule, "openQuotePos counts runes", fd.Pos(), "range over the lead-up text, += per rune", "the quote column is derived from byte lengths: a non-ASCII character before the opening quote shifts the indentation that is stripped from continuation lines")
 }
